@@ -46,7 +46,8 @@ Fold(ob, lines) == IF lines = <<>> THEN ob ELSE Fold(SimObsStep(ob, Head(lines))
 
 Init ==
   \E tr \in Traces :
-    LET cf == [delay |-> Delay, nc |-> NC, ns |-> NS, cont |-> Cont, maxEvents |-> MaxEvents] IN
+    LET cf == [delay |-> Delay, nc |-> NC, ns |-> NS, cont |-> Cont, maxEvents |-> MaxEvents,
+              predict |-> TRUE, pps |-> 0] IN   \* aggregate delays computed (delay.rs); the bottleneck is out of reach of these bounds
     /\ Z = ZInit(tr, cf, Budget)
     /\ o = SimObsInit([nc |-> NC, ns |-> NS, delay |-> Delay, pps |-> -1, trace |-> tr,
                        max_it |-> 0, start |-> StartOf(tr, Delay)])
